@@ -1,2 +1,33 @@
-From BMC Require Import Base.
-Theorem C02_placeholder : True. Proof. exact I. Qed.
+(* C02 — no session unless the BMC proves knowledge of the password. *)
+From BMC Require Import Base Prim Layers Layers2 Serialize Packet Conn Hmac Handshake HandshakeProofs.
+
+(* whatever was received in the three exchanges (any scripts: retransmissions, garbage, truncations ...), if a
+   session is returned then: all three replies decoded, with tag 0 and status OK; the RAKP 2 code received IS the
+   HMAC under the caller's password of SID_M | SID_C | R_M | R_C | GUID_C | Role | ULen | UName built from the
+   RECEIVED fields and what the console sent; the RAKP 4 ICV received IS the (truncated) HMAC under the SIK -
+   itself keyed with KG, or the password when no KG is given - of R_M | SID_C | GUID_C *)
+Theorem C02_sound : forall o s random sc1 sc2 sc3 sent e,
+  new_session o s random sc1 sc2 sc3 = (sent, inl e) ->
+  exists rsp m2 m4 h icvlen b1 p1 b2 p2 b3 p3,
+    (In (Some b1) sc1 /\ payload_verdict b1 = PAccept p1 /\ decode_opensessionrsp opensessionrsp_zero p1 = Ok rsp) /\
+    (In (Some b2) sc2 /\ payload_verdict b2 = PAccept p2 /\ decode_rakp2 rakp2_zero p2 = Ok m2) /\
+    (In (Some b3) sc3 /\ payload_verdict b3 = PAccept p3 /\ decode_rakp4 rakp4_zero p3 = Ok m4) /\
+    (os_tag rsp = 0 /\ os_status rsp = 0) /\
+    (ap_alg (os_auth rsp) = su_auth s /\ ap_alg (os_integ rsp) = su_integ s /\ ap_alg (os_conf rsp) = su_conf s) /\
+    (r2_tag m2 = 0 /\ r2_status m2 = 0) /\ (r4_tag m4 = 0 /\ r4_status m4 = 0) /\
+    auth_params (su_auth s) = Some (h, icvlen) /\
+    r2_authcode m2 = hmac_alg h (so_password o) (rakp2_authcode_input (rakp1_request o rsp random) m2) /\
+    es_sik e = hmac_alg h (if Nat.eqb (length (so_kg o)) 0 then so_password o else so_kg o)
+                          (sik_input (rakp1_request o rsp random) m2) /\
+    r4_icv m4 = icv_of h icvlen (es_sik e) (rakp1_request o rsp random) m2 /\
+    (es_k1 e = hmac_alg h (es_sik e) (k_const 1) /\ es_k2 e = hmac_alg h (es_sik e) (k_const 2)) /\
+    (es_local_id e = os_console_id rsp /\ es_remote_id e = os_bmc_id rsp) /\
+    (es_suite e = s /\ su_conf s = 1 /\ su_integ s <> 0).
+Proof. exact new_session_ok_inv. Qed.
+
+(* non-vacuity is C01 (a conforming BMC does get a session); the hashed byte strings, in the code's order *)
+Example C02_rakp2_input_layout : forall r1 r2,
+  rakp2_authcode_input r1 r2 =
+  put_le32 (r2_console_id r2) ++ put_le32 (r1_bmc_id r1) ++ r1_random r1 ++ r2_random r2 ++ r2_guid r2 ++
+  [hashed_role r1; u8 (N.of_nat (length (r1_username r1)))] ++ r1_username r1.
+Proof. reflexivity. Qed.
